@@ -20,6 +20,7 @@ CLAIMS = {
  "C13": ("theorems over C (Mathlib): |z·cis| = |z|, cis adds, inverse, p0 360-periodic, the angle reduction is the identity on (-360,360), exp(-i pi/2 r) = (-i)^r, placement of the factor per trace via the bracket theorem; pinned sign defect refuted; tie: closed-form factor table vs real phase(), algebraic-law oracles, autophase magnitude/replay/reference-slice oracle. Partial: that the optimiser finds the right phase is not a theorem", "5 C13"),
  "C14": ("theorems: id - P annihilates polynomials, is idempotent and linear for ANY linear fit map P that reproduces sampled polynomials (numpy.polyfit's assumed specification, hypotheses not axioms); normalize: largest magnitude exactly 1, positive factor, idempotent; the model's numpy.interp returns the node value at every node (interp on own coordinates = identity) and the straight line between nodes; left_shift = slice n:; ndalign only rolls and keeps the first trace; tie: exact model for normalize/interp/left_shift/ndalign, per-trace table for the fit, algebraic-law oracles. Partial: polyfit S1/S2 assumed; shift-equivariance on the implementation only (known finding for lags beyond n/2)", "5 C14"),
  "C15": ("theorems: apodize multiplies every element by the window value at its own position along dim (same window for every trace), unknown kinds rejected over the window table REGENERATED from the source, over R: exponential closed form, first point 1 and never increasing for exponential/gaussian/hann/hamming; tie: the same generic Lean formulas evaluated in Float vs dnplab.math.window, apodize correspondence, window oracles", "5 C15"),
+ "C16": ("theorems by kernel evaluation over tables REGENERATED from load.py and dnplab.cfg: every format autodetect can return is dispatched (or is mat), recognition by extension / directory content, rejection of everything else over the whole abstract domain (22 ext x dir x 2^6 listings), scale factor of every prefix x unit string, the configured frequency key/unit of every NMR format equals the importer's own Hz convention, sections <-> dispatch; over R: dBm<->W are inverse, container independent; tie: exhaustive autodetect on real paths, every config key through the real code, shipped samples (autodetected = explicit, frequency = nmr_frequency), multi-path load, conversions on all container types", "5 C16"),
  "C17": ("theorems about the model of the repaired save_h5: refusal without overwrite leaves the destination untouched, ANY fault (an unstorable value at any position) leaves the destination exactly as it was, success holds the complete tree; pinned truncate-then-write refuted on a witness; tie: fault enumeration over every injection position x previous file x overwrite, outcome classes compared with the model and with the property", "5 C17"),
  "C11": ("theorems: every stamping step appends, pipeline_prefix by induction over any pipeline, input untouched (frame); tie: pipelines on objects with 0-12 pre-existing entries + history oracle", "5 C11"),
 }
